@@ -16,11 +16,16 @@
   `none` = the Rust code panics (`count.to_u32().unwrap()` / `to_i32().unwrap()` inside the
   flattening).
 
+  `fast_bounding_range_y` of the two curve types is written out here (`quadFastRangeY`,
+  `cubicFastRangeY`: the expressions of `Quad.fastBoundingRangeY` / `Cubic.fastBoundingRangeY` in
+  Model/Geom/Extrema.lean) instead of importing Extrema.lean: that file's `Box` / `Tri` clash with
+  Model/Geom/Intersect.lean, which the sweep model needs, and C18's driver links both this file
+  and the sweep model (family `fillprog`).
+
   Mathlib-free.
 -/
 import LyonVerif.Model.Algo.Winding
 import LyonVerif.Model.Geom.Flatten
-import LyonVerif.Model.Geom.Extrema
 
 namespace Lyon.Winding
 open Lyon Scalar
@@ -53,6 +58,15 @@ def CSub.last (s : CSub α) : P α := lastOf s.first s.segs
 section
 variable [Transc α] [FlatConst α]
 
+/-- `QuadraticBezierSegment::fast_bounding_range_y`: `(from.y.min(ctrl.y).min(to.y), from.y.max(ctrl.y).max(to.y))` -/
+def quadFastRangeY (s : Quad α) : α × α :=
+  (Scalar.min (Scalar.min s.a.y s.c.y) s.b.y, Scalar.max (Scalar.max s.a.y s.c.y) s.b.y)
+
+/-- `CubicBezierSegment::fast_bounding_range_y` -/
+def cubicFastRangeY (s : Cubic α) : α × α :=
+  (Scalar.min (Scalar.min (Scalar.min s.a.y s.c1.y) s.c2.y) s.b.y,
+   Scalar.max (Scalar.max (Scalar.max s.a.y s.c1.y) s.c2.y) s.b.y)
+
 /-- `if min > point.y || max < point.y { continue }` on a `fast_bounding_range_y` result -/
 def skipRange (q : P α) (r : α × α) : Bool := decide (q.y < r.1) || decide (r.2 < q.y)
 
@@ -62,11 +76,11 @@ def segEdges (q : P α) (tol : α) (cur : P α) : CSeg α → Option (List (P α
   | .line t => some [(cur, t)]
   | .quad c t =>
     let s : Quad α := ⟨cur, c, t⟩
-    if skipRange q s.fastBoundingRangeY then some []
+    if skipRange q (quadFastRangeY s) then some []
     else (s.forEachFlattened tol).map (fun l => l.map (fun f => (f.a, f.b)))
   | .cubic c1 c2 t =>
     let s : Cubic α := ⟨cur, c1, c2, t⟩
-    if skipRange q s.fastBoundingRangeY then some []
+    if skipRange q (cubicFastRangeY s) then some []
     else (s.forEachFlattened tol).map (fun l => l.map (fun f => (f.a, f.b)))
 
 /-- the same without the early-out: the flattened outline of the event -/
